@@ -354,34 +354,56 @@ def forwarding_slice(rep, rid: str, prog, names: tuple[str, ...], text: str, flo
     rep.floor(rid, floor)
 
 
-def timeline_record(rep, rid: str, prog, fields: tuple[str, ...] = ("attempt", "event", "sleep_s")) -> None:
-    """the captured timeline shows what the hooks were shown: `_TimelineCollector.record(event, attempt, sleep_s, tags)`
-    builds its TimelineEvent with the like-named fields taken from those very parameters (`elapsed_s` is the collector's
-    own clock reading, never one of the parameters)"""
+def timeline_hook_paths(prog):
+    """(hook, how _resolve_timeline refers to it, its parameters without self, its paths) with the collector's `record`
+    method - where there is one - read through: whether the timeline entry is built in a collector method or in the
+    hook itself is the code's business"""
     from ..ctx import engine
+    from ..model import AnalysisError
 
-    fi = prog.func("redress.policy.runner.timeline:_TimelineCollector.record")
-    rep.analysed(fi.qual)
+    hook, ref = timeline_hook(prog)
+    if hook is None:
+        raise AnalysisError("timeline wrapper (the function _resolve_timeline installs as the metric hook) not found")
+    hp = hook.param_names()[1:] if hook.is_method and not hook.is_staticmethod else hook.param_names()
+    eng = engine(prog)
+    inline0 = eng.inline
+    eng.inline = lambda f, inline0=inline0: bool(inline0 and inline0(f)) or f.qual.endswith(":_TimelineCollector.record")
+    try:
+        paths = eng.paths(hook, raises=lambda ev, cfg: (), key="timeline-hook")
+    finally:
+        eng.inline = inline0
+    return hook, ref, hp, paths
+
+
+def timeline_record(rep, rid: str, prog, fields: tuple[str, ...] = ("attempt", "event", "sleep_s")) -> None:
+    """the captured timeline shows what the hooks were shown: the hook installed by `_resolve_timeline` (with the
+    collector's `record(event, attempt, sleep_s, tags)` read through) builds its TimelineEvent with the like-named fields
+    taken from those very parameters (`elapsed_s` is the collector's own clock reading, never one of the parameters)"""
+    hook, _ref, hp, paths = timeline_hook_paths(prog)
+    rep.analysed(hook.qual)
+    if "redress.policy.runner.timeline:_TimelineCollector.record" in prog.funcs:
+        rep.analysed("redress.policy.runner.timeline:_TimelineCollector.record")
+    role = dict(zip(("event", "attempt", "sleep_s", "tags"), hp))
     n = 0
-    for p in engine(prog).paths(fi):
+    for p in paths:
         evs = [e for e in p.calls(pure=None) if e.is_ctor("TimelineEvent")]
         if not evs:
             continue
         n += 1
         d = evs[0].kwargs
         rep.instance(rid, f"_TimelineCollector.record|{'|'.join(p.describe()[-2:])[:80]}")
-        bad = {f: show(d.get(f)) for f in fields if d.get(f) != ("param", f)}
+        bad = {f: show(d.get(f)) for f in fields if d.get(f) != ("param", role.get(f, f))}
         el = d.get("elapsed_s")
         if "elapsed_s" not in fields and isinstance(el, tuple) and el and el[0] == "param":
             bad["elapsed_s"] = show(el)
         if bad or len(evs) != 1:
-            rep.fail(rid, f"timeline-record|{sorted(bad)[0] if bad else 'count'}", f"_TimelineCollector.record builds the timeline entry with {bad or 'several TimelineEvent constructions'}; expected each of {fields} from the parameter of the same name", where=fi.where(), function=fi.qual, path=p.describe())
+            rep.fail(rid, f"timeline-record|{sorted(bad)[0] if bad else 'count'}", f"_TimelineCollector.record builds the timeline entry with {bad or 'several TimelineEvent constructions'}; expected each of {fields} from the parameter of the same name", where=hook.where(), function=hook.qual, path=p.describe())
         else:
             rep.ok(rid)
     if n < 1:
         from ..model import AnalysisError
 
-        raise AnalysisError(f"{rid}: no TimelineEvent construction found in _TimelineCollector.record")
+        raise AnalysisError(f"{rid}: no TimelineEvent construction found on the paths of the timeline hook")
 
 
 def timeline_hook(prog):
